@@ -177,6 +177,26 @@ Fixpoint p_expr (nm : Z -> list Z) (e : expr) {struct e} : list Z :=
                     ++ (if atomic b then p_expr nm b else paren (p_expr nm b))
   end.
 
+(** nested destructuring pattern, as pylib/coreerg_gen.py erg_pat writes it *)
+Fixpoint p_pat (nm : Z -> list Z) (p : pat) {struct p} : list Z :=
+  match p with
+  | PVar x => nm x
+  | PDiscard => [95] (*"_"*)
+  | PTuple ps =>
+    [40] (*"("*) ++ join ([44; 32] (*", "*)) ((fix go (l : list pat) : list (list Z) :=
+                                   match l with [] => [] | x :: r => p_pat nm x :: go r end) ps) ++ [41] (*")"*)
+  | PList ps =>
+    [91] (*"["*) ++ join ([44; 32] (*", "*)) ((fix go (l : list pat) : list (list Z) :=
+                                   match l with [] => [] | x :: r => p_pat nm x :: go r end) ps) ++ [93] (*"]"*)
+  end.
+Fixpoint pat_ids (p : pat) : list Z :=
+  match p with
+  | PVar x => [x]
+  | PDiscard => []
+  | PTuple ps | PList ps =>
+    (fix go (l : list pat) : list Z := match l with [] => [] | x :: r => pat_ids x ++ go r end) ps
+  end.
+
 Definition p_op (nm : Z -> list Z) (e : expr) : list Z := if atomic e then p_expr nm e else paren (p_expr nm e).
 
 (* ------------------------------------------------------------------ statements *)
@@ -217,6 +237,7 @@ Fixpoint p_stmt (nm : Z -> list Z) (U : list Z) (ind : nat) (s : stmt) {struct s
     [p ++ (if isl then [91] (*"["*) else [40] (*"("*)) ++ join ([44; 32] (*", "*)) (map nm ids) ++ (if isl then [93; 32; 61; 32] (*"] = "*) else [41; 32; 61; 32] (*") = "*))
        ++ p_expr nm e]
   | SPCall f args => [p ++ nm f ++ [40] (*"("*) ++ join ([44; 32] (*", "*)) (map (p_expr nm) args) ++ [41] (*")"*)]
+  | SNPat pt e => [p ++ p_pat nm pt ++ [32; 61; 32] (*" = "*) ++ p_expr nm e]
   end.
 
 Definition print_lines (cp : cprog) : list (list Z) :=
@@ -268,7 +289,7 @@ Fixpoint starts_paren (e : expr) : bool :=
   end.
 
 Definition is_def (s : stmt) : bool :=
-  match s with SDef _ _ _ | SMutDef _ _ | SFun _ _ _ _ _ | SLam _ _ _ | SPat _ _ _ => true | _ => false end.
+  match s with SDef _ _ _ | SMutDef _ _ | SFun _ _ _ _ _ | SLam _ _ _ | SPat _ _ _ | SNPat _ _ => true | _ => false end.
 Definition is_sexpr (s : stmt) : bool := match s with SExpr _ => true | _ => false end.
 
 Fixpoint last_is_def (ss : list stmt) : bool :=
@@ -313,6 +334,8 @@ Fixpoint wf_stmt (s : stmt) : bool :=
     && (if isp then blk body else fbody body) && negb (last_is_def body)
   | SLam f params e => (0 <=? f) && forallb (fun p => 0 <=? fst p) params && wf_expr e
   | SPat _ ids e => (match ids with [] => false | _ => true end) && forallb (Z.leb 0) ids && wf_expr e
+  | SNPat pt e =>
+    (match pt with PTuple (_ :: _) | PList (_ :: _) => true | _ => false end) && forallb (Z.leb 0) (pat_ids pt) && wf_expr e
   end.
 
 Definition wf_progb (cp : cprog) : bool :=
